@@ -1,17 +1,13 @@
 (* C18 — the WebVTT reader's line machine and the _TextCueParser cursor: totality outside the recorded triggers *)
 From TT Require Import Base.Prelude Model.Outcome Model.ReaderGuards Proofs.C18.Srt.
 
+(* which variables are bound in which state (subtitle_text is assigned when a cue's paragraph is created) *)
 Definition vtt_inv (v : vtt_vars) : Prop :=
   match v_state v with
-  | V_START => False
-  | V_TEXT => v_p v = Some false
+  | V_TEXT => v_p v = Some false /\ v_text_bound v = true
   | V_TEXT_MORE => v_p v = Some true /\ v_text_bound v = true
   | _ => True
   end.
-
-(* in state TEXT the next line exists and is not blank (what "every arrow line has a payload" buys) *)
-Definition payload_next (v : vtt_vars) (items : list vtt_view) : Prop :=
-  v_state v = V_TEXT -> match items with n :: _ => vv_blank n = false | [] => False end.
 
 Lemma vtt_flush_ok v v' :
   vtt_flush v = inl v' -> v_state v' = V_LOOKING /\ (forall x, In x (v_oracle v') -> In x (v_oracle v)).
@@ -30,122 +26,19 @@ Proof.
   intro E; inversion E; subst. apply outcome_of_sub_internal in O. subst. eapply next_sub_internal; eauto.
 Qed.
 
-Ltac fin St :=
-  repeat split; unfold vtt_inv, payload_next; simpl; rewrite ?St; simpl; auto; try discriminate; try (let X := fresh "X" in intro X; discriminate X); try tauto.
-
 Lemma vtt_loop_internal items : forall v k,
-  vtt_inv v -> payload_next v items ->
-  arrow_without_payload items = false -> vtt_any_overflow items = false ->
+  vtt_inv v -> vtt_any_overflow items = false ->
   vtt_loop v items = inr (Internal k) -> In (SubInternal k) (v_oracle v).
 Proof.
-  induction items as [|l rest IH]; intros v k I P A O H.
-  - (* the terminator *)
-    simpl in H. unfold vtt_step in H. unfold vtt_inv in I. unfold payload_next in P.
-    destruct (v_state v) eqn:St; try contradiction; try discriminate; try (exfalso; apply P; reflexivity).
-    destruct I as [Ip Ib]. apply vtt_flush_internal; eauto.
-  - simpl in H. simpl in A. apply orb_false_iff in A as [A1 A2].
-    unfold vtt_any_overflow in O. simpl in O. apply orb_false_iff in O as [O1 O2].
-    destruct (vtt_step v (Some l)) as [v'|o] eqn:E.
-    + (* the step continues: re-establish the invariant, then the induction hypothesis *)
-      assert (G : vtt_inv v' /\ payload_next v' rest /\ (forall x, In x (v_oracle v') -> In x (v_oracle v))).
-      { unfold vtt_step in E. unfold vtt_inv in I. unfold payload_next in P.
-        destruct (v_state v) eqn:St; try contradiction.
-        - (* LOOKING *)
-          unfold vtt_looking in E.
-          destruct (vv_blank l); [inversion E; subst; fin St|].
-          destruct (vv_note l); [inversion E; subst; fin St|].
-          destruct (vv_style l); [inversion E; subst; fin St|].
-          destruct (vv_arrow l) eqn:Ar; simpl in E; [|inversion E; subst; fin St].
-          destruct (vv_cue l); simpl in E; [|inversion E; subst; fin St].
-          rewrite O1 in E. inversion E; subst. repeat split; unfold vtt_inv, payload_next; simpl; auto.
-          intros _. simpl in A1. destruct rest as [|n rest']; [discriminate|]. destruct (vv_blank n); [discriminate|reflexivity].
-        - (* NOTE *)
-          destruct (vv_blank l); inversion E; subst; fin St.
-        - (* STYLE *)
-          destruct (vv_blank l); inversion E; subst; fin St.
-        - (* TEXT: by payload_next the line is not blank *)
-          assert (B : vv_blank l = false) by (apply P; reflexivity). rewrite B in E.
-          unfold vtt_text_line in E. rewrite I in E. inversion E; subst. fin St.
-        - (* TEXT_MORE *)
-          destruct I as [Ip Ib].
-          destruct (vv_blank l).
-          + apply vtt_flush_ok in E as [S1 S2]. repeat split; unfold vtt_inv, payload_next; rewrite ?S1; auto. discriminate.
-          + unfold vtt_text_line in E. rewrite Ib in E. simpl in E. inversion E; subst. fin St. }
-      destruct G as [I' [P' Inc]]. apply Inc. eapply IH; eauto.
-    + (* the step stops *)
-      inversion H; subst. unfold vtt_step in E. unfold vtt_inv in I. unfold payload_next in P.
-      destruct (v_state v) eqn:St; try contradiction.
-      * unfold vtt_looking in E.
-        destruct (vv_blank l); [discriminate|]. destruct (vv_note l); [discriminate|]. destruct (vv_style l); [discriminate|].
-        destruct (vv_arrow l); simpl in E; [|discriminate]. destruct (vv_cue l); simpl in E; [|discriminate].
-        rewrite O1 in E. discriminate.
-      * destruct (vv_blank l); discriminate.
-      * destruct (vv_blank l); discriminate.
-      * assert (B : vv_blank l = false) by (apply P; reflexivity). rewrite B in E.
-        unfold vtt_text_line in E. rewrite I in E. discriminate.
-      * destruct I as [Ip Ib]. destruct (vv_blank l).
-        -- apply vtt_flush_internal; eauto.
-        -- unfold vtt_text_line in E. rewrite Ib in E. discriminate.
-Qed.
-
-(* a non-empty file whose arrow lines all have a payload and whose settings do not overflow *)
-Lemma vtt_views_partial oracle items k :
-  items <> [] -> arrow_without_payload items = false -> vtt_any_overflow items = false ->
-  vtt_views oracle items = Internal k -> In (SubInternal k) oracle.
-Proof.
-  intros NE A O. unfold vtt_views. destruct items as [|l rest]; [congruence|].
-  change (vtt_loop (vtt_init oracle) (l :: rest)) with (vtt_loop (vset V_LOOKING (vtt_init oracle)) rest).
-  simpl in A. apply orb_false_iff in A as [_ A2].
-  unfold vtt_any_overflow in O. simpl in O. apply orb_false_iff in O as [_ O2].
-  destruct (vtt_loop (vset V_LOOKING (vtt_init oracle)) rest) eqn:E; [discriminate|].
-  intro; subst. change oracle with (v_oracle (vset V_LOOKING (vtt_init oracle))).
-  eapply vtt_loop_internal; eauto.
-  - exact I.
-  - unfold payload_next. simpl. discriminate.
-Qed.
-
-Lemma vtt_partial oracle content :
-  readlines content <> [] ->
-  arrow_without_payload (map vtt_classify (readlines content)) = false ->
-  vtt_any_overflow (map vtt_classify (readlines content)) = false ->
-  (forall r, In r oracle -> sub_is_internal r = false) ->
-  is_internal (vtt_run oracle content) = false.
-Proof.
-  intros NE A O H. destruct (vtt_run oracle content) eqn:E; try reflexivity.
-  unfold vtt_run in E. apply vtt_views_partial in E; auto.
-  - apply H in E. discriminate.
-  - destruct (readlines content); [congruence|discriminate].
-Qed.
-
-(* ---------------------------------------------------------------------------------------------- the repaired variant *)
-(* with subtitle_text initialised the payload trigger disappears: only the empty file and the float overflow remain *)
-Definition vtt_inv_fixed (v : vtt_vars) : Prop :=
-  v_text_bound v = true /\
-  match v_state v with
-  | V_START => False
-  | V_TEXT => v_p v = Some false
-  | V_TEXT_MORE => v_p v = Some true
-  | _ => True
-  end.
-
-Lemma vtt_flush_bound v v' : vtt_flush v = inl v' -> v_text_bound v' = true.
-Proof.
-  unfold vtt_flush. destruct (v_text_bound v); simpl; [|discriminate]. destruct (v_p v); [|discriminate].
-  destruct (next_sub (v_oracle v)) as [r o']. destruct (outcome_of_sub r); [discriminate|]. intro E; inversion E; reflexivity.
-Qed.
-
-Lemma vtt_loop_internal_fixed items : forall v k,
-  vtt_inv_fixed v -> vtt_any_overflow items = false ->
-  vtt_loop v items = inr (Internal k) -> In (SubInternal k) (v_oracle v).
-Proof.
-  induction items as [|l rest IH]; intros v k [Hb I] O H.
-  - simpl in H. unfold vtt_step in H.
-    destruct (v_state v) eqn:St; try contradiction; try discriminate; apply vtt_flush_internal; eauto.
+  induction items as [|l rest IH]; intros v k I O H.
+  - simpl in H. unfold vtt_step in H. unfold vtt_inv in I.
+    destruct (v_state v) eqn:St; try discriminate; destruct I as [Ip Ib]; apply vtt_flush_internal; eauto.
   - simpl in H. unfold vtt_any_overflow in O. simpl in O. apply orb_false_iff in O as [O1 O2].
     destruct (vtt_step v (Some l)) as [v'|o] eqn:E.
-    + assert (G : vtt_inv_fixed v' /\ (forall x, In x (v_oracle v') -> In x (v_oracle v))).
-      { unfold vtt_step in E. unfold vtt_inv_fixed.
-        destruct (v_state v) eqn:St; try contradiction.
+    + assert (G : vtt_inv v' /\ (forall x, In x (v_oracle v') -> In x (v_oracle v))).
+      { unfold vtt_step in E. unfold vtt_inv in *.
+        destruct (v_state v) eqn:St.
+        - inversion E; subst; simpl; auto.
         - unfold vtt_looking in E.
           destruct (vv_blank l); [inversion E; subst; rewrite St; auto|].
           destruct (vv_note l); [inversion E; subst; simpl; auto|].
@@ -155,35 +48,43 @@ Proof.
           rewrite O1 in E. inversion E; subst; simpl; auto.
         - destruct (vv_blank l); inversion E; subst; simpl; rewrite ?St; auto.
         - destruct (vv_blank l); inversion E; subst; simpl; rewrite ?St; auto.
-        - destruct (vv_blank l).
-          + pose proof (vtt_flush_bound _ _ E) as B. apply vtt_flush_ok in E as [S1 S2]. rewrite S1. auto.
-          + unfold vtt_text_line in E. rewrite I in E. inversion E; subst; simpl; auto.
-        - destruct (vv_blank l).
-          + pose proof (vtt_flush_bound _ _ E) as B. apply vtt_flush_ok in E as [S1 S2]. rewrite S1. auto.
-          + unfold vtt_text_line in E. rewrite Hb in E. simpl in E. inversion E; subst; simpl; auto. }
+        - destruct I as [Ip Ib]. destruct (vv_blank l).
+          + apply vtt_flush_ok in E as [S1 S2]. rewrite S1. auto.
+          + unfold vtt_text_line in E. rewrite Ip in E. inversion E; subst; simpl; auto.
+        - destruct I as [Ip Ib]. destruct (vv_blank l).
+          + apply vtt_flush_ok in E as [S1 S2]. rewrite S1. auto.
+          + unfold vtt_text_line in E. rewrite Ib in E. simpl in E. inversion E; subst; simpl; rewrite ?St; auto. }
       destruct G as [I' Inc]. apply Inc. eapply IH; eauto.
-    + inversion H; subst. unfold vtt_step in E.
-      destruct (v_state v) eqn:St; try contradiction.
+    + inversion H; subst. unfold vtt_step in E. unfold vtt_inv in I.
+      destruct (v_state v) eqn:St.
+      * discriminate.
       * unfold vtt_looking in E.
         destruct (vv_blank l); [discriminate|]. destruct (vv_note l); [discriminate|]. destruct (vv_style l); [discriminate|].
         destruct (vv_arrow l); simpl in E; [|discriminate]. destruct (vv_cue l); simpl in E; [|discriminate].
         rewrite O1 in E. discriminate.
       * destruct (vv_blank l); discriminate.
       * destruct (vv_blank l); discriminate.
-      * destruct (vv_blank l); [apply vtt_flush_internal; eauto|]. unfold vtt_text_line in E. rewrite I in E. discriminate.
-      * destruct (vv_blank l); [apply vtt_flush_internal; eauto|]. unfold vtt_text_line in E. rewrite Hb in E. discriminate.
+      * destruct I as [Ip Ib]. destruct (vv_blank l); [apply vtt_flush_internal; eauto|]. unfold vtt_text_line in E. rewrite Ip in E. discriminate.
+      * destruct I as [Ip Ib]. destruct (vv_blank l); [apply vtt_flush_internal; eauto|]. unfold vtt_text_line in E. rewrite Ib in E. discriminate.
 Qed.
 
-Lemma vtt_views_fixed_partial oracle items k :
-  items <> [] -> vtt_any_overflow items = false ->
-  vtt_views_fixed oracle items = Internal k -> In (SubInternal k) oracle.
+(* every file, the empty one included, whose cue settings do not overflow a float *)
+Lemma vtt_views_partial oracle items k :
+  vtt_any_overflow items = false -> vtt_views oracle items = Internal k -> In (SubInternal k) oracle.
 Proof.
-  intros NE O. unfold vtt_views_fixed. destruct items as [|l rest]; [congruence|].
-  change (vtt_loop (vtt_init_fixed oracle) (l :: rest)) with (vtt_loop (vset V_LOOKING (vtt_init_fixed oracle)) rest).
-  unfold vtt_any_overflow in O. simpl in O. apply orb_false_iff in O as [_ O2].
-  destruct (vtt_loop (vset V_LOOKING (vtt_init_fixed oracle)) rest) eqn:E; [discriminate|].
-  intro; subst. change oracle with (v_oracle (vset V_LOOKING (vtt_init_fixed oracle))).
-  eapply vtt_loop_internal_fixed; eauto. split; simpl; auto.
+  intros O. unfold vtt_views.
+  destruct (vtt_loop (vtt_init oracle) items) eqn:E; [discriminate|].
+  intro; subst. change oracle with (v_oracle (vtt_init oracle)).
+  eapply vtt_loop_internal; eauto. exact I.
+Qed.
+
+Lemma vtt_partial oracle content :
+  vtt_any_overflow (map vtt_classify (readlines content)) = false ->
+  (forall r, In r oracle -> sub_is_internal r = false) ->
+  is_internal (vtt_run oracle content) = false.
+Proof.
+  intros O H. destruct (vtt_run oracle content) eqn:E; try reflexivity.
+  unfold vtt_run in E. apply vtt_views_partial in E; auto. apply H in E. discriminate.
 Qed.
 
 (* ---------------------------------------------------------------------------------------------- the cursor, without ruby *)
